@@ -115,8 +115,9 @@ def cases(E):
 
 OPTIONAL_CHECKS = {"parser_function_contract": ["fails_with_a_syntax_error_only", "rejects_end_of_input", "whole_input_consumed", "progress"],
                    "assemble_with_emitter_contract": ["exception_only_on_failure", "no_success_announced_on_exception", "same_call"],
-                   "assemble_contract": ["exception_only_when_callee_raises", "status_propagated", "sfc_writer_on_output_file", "mapping_applied"],
-                   "assemble_as_patch_contract": ["exception_only_when_callee_raises", "status_propagated", "ips_writer_on_output_file", "patch_framing", "mapping_applied"],
+                   "assemble_contract": ["exception_only_when_callee_raises", "status_propagated", "sfc_writer_on_output_file", "mapping_applied", "mapping_kept_when_none_is_given"],
+                   "assemble_as_patch_contract": ["exception_only_when_callee_raises", "status_propagated", "ips_writer_on_output_file", "patch_framing", "mapping_applied",
+                                                  "mapping_kept_when_none_is_given"],
                    "assemble_string_contract": ["raises_only_when_a_phase_raised", "none_only_when_all_phases_clean", "phases_in_order", "error_message_returned",
                                                 "nothing_emitted_after_parse_error"]}
 
